@@ -320,10 +320,16 @@ def run_child(rec: dict, deep_each_op: bool = False) -> dict:
     else:
         shallow_diff, additions = state.compare_shallow(PRISTINE_SHALLOW, state.shallow_view())
     deep_diff = None
-    force_deep = not unchanged and shallow_diff is None  # contents differ although nothing moved
+    force_deep = not unchanged  # something moved or changed: the content view decides what it means
+    identity_only = False
     if cfg.get("deep") or deep_each_op or force_deep:
         deep_diff, a2 = state.preserved(PRISTINE_DEEP, state.deep_view())
         additions += a2
+    if shallow_diff and not deep_diff:
+        # entries or lists were replaced by equal ones (e.g. lazily rebuilt with copies): contents, order and index
+        # membership are all preserved, so this is not a modification of the bundled data - counted, not flagged
+        identity_only = True
+        shallow_diff = None
     obj_diff = None
     obj_additions = 0
     for j, snap0 in snaps.items():
@@ -340,7 +346,7 @@ def run_child(rec: dict, deep_each_op: bool = False) -> dict:
     return {
         "outcomes": outcomes, "aborted": aborted, "shallow_diff": shallow_diff, "deep_diff": deep_diff,
         "deep_checked": bool(cfg.get("deep") or deep_each_op or force_deep), "first_deep_diff": first_deep_diff,
-        "obj_diff": obj_diff, "additions": additions, "obj_additions": obj_additions,
+        "obj_diff": obj_diff, "additions": additions + int(identity_only), "obj_additions": obj_additions,
         "states": sorted(states), "transitions": transitions, "nontrivial": nontrivial,
         "event_digest": log.digest(), "objects": len(snaps),
     }
